@@ -71,9 +71,29 @@ func Link(f *model.File) *Program {
 func (p *Program) link(stmts []*model.Stmt, after, brk, cont *node) *node {
 	next := after
 	for i := len(stmts) - 1; i >= 0; i-- {
+		if stmts[i].K == model.KPory {
+			// a poryswitch contributes exactly the statements of the selected case, as if
+			// they were written in its place (README "Compile-Time Switches")
+			next = p.link(p.file.Selected(stmts[i]), next, brk, cont)
+			continue
+		}
 		next = p.build(stmts[i], next, brk, cont)
 	}
 	return next
+}
+
+// hasStatements reports whether a block contributes any statement once every poryswitch
+// is replaced by its selected case.
+func (p *Program) hasStatements(b []*model.Stmt) bool {
+	for _, s := range b {
+		if s.K != model.KPory {
+			return true
+		}
+		if p.hasStatements(p.file.Selected(s)) {
+			return true
+		}
+	}
+	return false
 }
 
 func (p *Program) build(s *model.Stmt, next, brk, cont *node) *node {
@@ -125,7 +145,8 @@ func (p *Program) build(s *model.Stmt, next, brk, cont *node) *node {
 		n := p.newNode(nSwitch, s)
 		n.next = next
 		for _, c := range s.Sw.Cases {
-			if len(c.Body) == 0 {
+			// a body that only holds poryswitches selecting nothing is an empty body
+			if !p.hasStatements(c.Body) {
 				n.firsts = append(n.firsts, nil)
 			} else {
 				// 'break' leaves the switch; 'continue' still belongs to the enclosing loop.
